@@ -10,6 +10,9 @@ import ClairModel.Proofs.TarFSSub
 import ClairModel.Proofs.TarFSExtract
 import ClairModel.Proofs.TarFSReject
 
+-- every variable of a property statement is bound explicitly: a misspelt name is an error, not a new variable
+set_option autoImplicit false
+
 namespace ClairModel.Props.C11
 open ClairModel ClairModel.TarFS
 
